@@ -15,6 +15,12 @@ import (
 	"golang.org/x/tools/go/ssa"
 )
 
+type timer struct {
+	at int64
+	ch *channel
+	tt types.Type
+}
+
 type thread struct {
 	id      int
 	i       *interpreter
@@ -103,6 +109,42 @@ func (i *interpreter) scheduleNext(cur *thread, park bool) {
 				return // the waiter is the current thread: it simply continues
 			}
 			i.handoff(cur, w, park)
+			return
+		}
+		// virtual time: fire the earliest pending timer
+		if len(i.timers) > 0 {
+			best := 0
+			for k, t := range i.timers {
+				if t.at < i.timers[best].at {
+					best = k
+				}
+			}
+			t := i.timers[best]
+			i.timers = append(i.timers[:best:best], i.timers[best+1:]...)
+			if t.at > i.now {
+				i.now = t.at
+			}
+			i.timerFires++
+			if i.timerFires > 64 {
+				i.finish(pathEnd{kind: "unwind", msg: "more than 64 timer expirations on one path (polling loop)"})
+				if park {
+					cur.wait()
+				}
+				return
+			}
+			// deliver the (zero) time value; the receiver, if parked, becomes runnable
+			tv := zero(t.tt.Underlying().(*types.Chan).Elem())
+			if w := popWaiter(&t.ch.recvq); w != nil {
+				i.complete(w, tv, true)
+			} else {
+				t.ch.buf = append(t.ch.buf, tv)
+			}
+			if len(i.runq) > 0 {
+				i.scheduleNext(cur, park)
+				return
+			}
+			// nobody was waiting on it: try the next timer / deadlock detection
+			i.scheduleNext(cur, park)
 			return
 		}
 		// nobody can run: global deadlock (or main exited, handled elsewhere)
